@@ -524,10 +524,19 @@ def _parse_header(fn, header):
         i = scan_balanced(header, i, "(")
         if i >= n:
             # const / static:  name: Ty =
-            m = re.match(r"(.*?): (.*) =$", header)
-            if m:
-                fn.name = m.group(1)
-                fn.ret_ty = m.group(2)
+            k = 0
+            pos = -1
+            while True:
+                k = scan_balanced(header, k, ":")
+                if k >= n:
+                    break
+                if header.startswith(": ", k) and not header.startswith("::", k) and (k == 0 or header[k - 1] != ":"):
+                    pos = k
+                    break
+                k += 1
+            if pos >= 0 and header.endswith(" ="):
+                fn.name = header[:pos]
+                fn.ret_ty = header[pos + 2:-2].strip()
             else:
                 fn.name = header
             return
